@@ -353,6 +353,23 @@ def g2(rep, src):
     ps = [p["pat"]["name"] for p in f.params if not p.get("self")]
     acc, deps = ps[0], ps[1]
     arms = dispatch_arms(f)
+    # the candidates built by the match must be returned as they are: no post-processing (dedup, truncation, sort+take ...)
+    stmts = f.body["stmts"]
+    tail = stmts[-1]["e"] if stmts and stmts[-1]["k"] == "expr" and not stmts[-1].get("semi") else None
+    the_match = [m for m in find(f.body, "match") if m["e"]["k"] == "mcall" and m["e"]["m"] == "relation"][0]
+    bound = {b for st in stmts if st["k"] == "let" and st.get("init") is the_match for b in pat_binds(st["pat"])}
+    post = []
+    t = tail
+    while t is not None and t["k"] == "mcall":
+        post.append(t["m"])
+        t = t["recv"]
+    returned_ok = t is the_match or (t is not None and t["k"] == "path" and t["p"] in bound)
+    rep.instance("G2", "select-visitor@return", {"post_processing": list(reversed(post)), "returns_the_candidates": bool(returned_ok)})
+    if not returned_ok:
+        rep.violation("G2", "select-visitor@return", "the visitor does not return the candidates it enumerated: %s" % show(tail, 120), f.where())
+    badpost = [m for m in post if m not in ("into_iter", "iter", "collect", "cloned", "to_vec")]
+    if badpost:
+        rep.violation("G2", "select-visitor@return", "the enumerated candidates are post-processed by %s before being returned (candidates may be dropped)" % list(reversed(badpost)), f.where())
     for nm in UNARY + BINARY:
         if nm not in arms:
             rep.violation("G2", "select-visitor::" + nm, "no arm for Relation::%s" % nm.capitalize(), f.where())
@@ -501,6 +518,24 @@ def g3(rep, src):
             rep.violation("G3", name, "the empty case is not reported as Error::unreachable_property", f.where())
 
 
+def g5(rep, src):
+    rep.rule(
+        "G5",
+        "the driver methods RelationWithRewritingRules::{select_rewriting_rules, map_rewriting_rules} and Relation::set_rewriting_rules return what their visitor computed (accept + identity/clone combinators only)",
+        floor=3,
+        necessary="a truncating or de-duplicating combinator here drops consistent derivations before the arg-max",
+    )
+    for nm in ("select_rewriting_rules", "map_rewriting_rules", "set_rewriting_rules"):
+        f = src.one_fn(name=nm, file=RR)
+        ms = [m["m"] for m in find(f.body, "mcall")]
+        bad = [m for m in ms if m not in ("accept", "into_iter", "iter", "map", "collect", "cloned", "clone", "deref", "to_vec")]
+        rep.instance("G5", nm, {"fn": nm, "methods": ms})
+        if "accept" not in ms:
+            rep.violation("G5", nm, "%s does not run its visitor (no accept call)" % nm, f.where())
+        if bad:
+            rep.violation("G5", nm, "%s post-processes the visitor's result with %s" % (nm, bad), f.where())
+
+
 def run(rep):
     rep.explanation = (
         "Arm/term tables of the rewriting search read from the syn AST: positional agreement of selector and eliminator predicates (G1), "
@@ -512,4 +547,5 @@ def run(rep):
     g2(rep, src)
     g3(rep, src)
     g4(rep, src)
+    g5(rep, src)
     rep.assume("Visited::get returns the value computed for that child (visitor.rs, not analysed)")
